@@ -204,6 +204,10 @@ pub enum DOp {
         /// a fault was injected into the tokens: nothing is asserted if the update succeeds anyway
         #[serde(default)]
         injected_fault: bool,
+        /// take the other documented route: `command_for_update().try_get_matches_from(argv)` followed by
+        /// `update_from_arg_matches(&matches)`
+        #[serde(default)]
+        via_matches: bool,
     },
     /// `try_parse_from(argv)` compared with `command().try_get_matches_from(argv)` + hand extraction
     Parse { argv: Vec<String> },
@@ -1034,7 +1038,7 @@ fn gen_ops<T: Mirror>(rng: &mut Rng, ty: u8) -> (Vec<String>, Vec<DOp>) {
         ops.push(match rng.weighted(&[10, 3, 3, 1, 3]) {
             0 => {
                 let (argv, named) = mk_update(rng);
-                DOp::Update { argv, named, injected_fault: false }
+                DOp::Update { argv, named, injected_fault: false, via_matches: rng.chance(1, 3) }
             }
             1 => {
                 let (argv, _) = mk_update(rng);
@@ -1054,7 +1058,7 @@ fn gen_ops<T: Mirror>(rng: &mut Rng, ty: u8) -> (Vec<String>, Vec<DOp>) {
                     2 => argv.push("--level=999".into()),
                     _ => argv.insert(0, "--mode=bogus".into()),
                 }
-                DOp::Update { argv, named: vec![], injected_fault: true }
+                DOp::Update { argv, named: vec![], injected_fault: true, via_matches: rng.chance(1, 3) }
             }
         });
     }
@@ -1155,12 +1159,20 @@ fn exec_ty<T: Mirror>(name: &str, sc: &DeriveSc, log: &mut Log, out: &mut Outcom
     for (i, op) in sc.ops.iter().enumerate() {
         out.steps += 1;
         match op {
-            DOp::Update { argv, named, injected_fault } => {
-                shape.add(1);
+            DOp::Update { argv, named, injected_fault, via_matches } => {
+                shape.add(if *via_matches { 11 } else { 1 });
                 let before = aged.fields();
                 let full = with0(name, argv.clone());
                 let snapshot = aged.clone();
-                let r = aged.try_update_from(full.iter());
+                let r = if *via_matches {
+                    out.count("op.update_via_matches");
+                    match T::command_for_update().try_get_matches_from(full.iter()) {
+                        Ok(m) => aged.update_from_arg_matches(&m),
+                        Err(e) => Err(e),
+                    }
+                } else {
+                    aged.try_update_from(full.iter())
+                };
                 match r {
                     Err(e) => {
                         // a failing update must not panic (it did not); nothing is asserted on the value
@@ -1249,6 +1261,23 @@ fn exec_ty<T: Mirror>(name: &str, sc: &DeriveSc, log: &mut Log, out: &mut Outcom
                             if v != w {
                                 out.violate("extraction-differs", name.to_string(), format!("op {i}: argv {:?}: derived value {:?} differs from the matches' content {:?}", argv, v, w));
                                 return;
+                            }
+                            // the other extraction entry points agree with try_parse_from
+                            out.comparisons += 1;
+                            let by_ref = <T as clap::FromArgMatches>::from_arg_matches(&m);
+                            let by_mut = <T as clap::FromArgMatches>::from_arg_matches_mut(&mut m.clone());
+                            for (how, x) in [("from_arg_matches", by_ref), ("from_arg_matches_mut", by_mut)] {
+                                match x {
+                                    Ok(x) if x == v => {}
+                                    Ok(x) => {
+                                        out.violate("extraction-differs", format!("{name}/{how}"), format!("op {i}: argv {:?}: {how} on the command's matches gives {:?}, try_parse_from gives {:?}", argv, x, v));
+                                        return;
+                                    }
+                                    Err(e) => {
+                                        out.violate("extraction-differs", format!("{name}/{how}"), format!("op {i}: argv {:?}: {how} on the command's matches fails ({:?}) although try_parse_from succeeds", argv, e.kind()));
+                                        return;
+                                    }
+                                }
                             }
                         }
                         Err(e) => {
